@@ -189,6 +189,7 @@ func (nr *netRun) adversarialPhase() {
 			nr.deliver(S, victim, msg, r.Intn(3) == 0, x)
 			nr.unchanged("C05", "a "+Summarise(msg).Kind()+" from a stranger", victim, before, nil)
 			r.Probe("adv-stranger")
+			r.Probe("adv-nontrivial")
 		}
 	}
 	// ---- role-confused messages from the counterparty: requests to the initiator, responses to the responder
@@ -213,6 +214,7 @@ func (nr *netRun) adversarialPhase() {
 			nr.deliver(from, victim, msg, false, x)
 			nr.unchanged("C05", "a role-confused "+Summarise(msg).Kind()+" from the counterparty", victim, before, nil)
 			r.Probe("adv-role-confused")
+			r.Probe("adv-nontrivial")
 		}
 	}
 	// ---- restart requests: single-field mutations of the valid one must not be honoured; the valid one must
@@ -274,6 +276,7 @@ func (nr *netRun) adversarialPhase() {
 			}
 			if mut == 0 {
 				r.Probe("adv-valid-restart")
+				r.Probe("adv-nontrivial")
 				if !isTerminal(sb.Status) && !honoured && nr.B.Vals["T0"] != nil {
 					// positive control: the unmutated request from the initiator of a live channel is honoured (unless the validator refused)
 					refused := false
@@ -291,6 +294,7 @@ func (nr *netRun) adversarialPhase() {
 				}
 			} else {
 				r.Probe("adv-mutated-restart")
+				r.Probe("adv-nontrivial")
 				if honoured {
 					r.Failf("C05", "mutated-restart-honoured", what, "a restart request for channel #%d with a changed %s was honoured (Restart event / accepted restart response)", x.idx, what)
 				}
@@ -327,6 +331,7 @@ func (nr *netRun) adversarialPhase() {
 				nr.unchanged("C05", "an illegitimate restart-existing-channel request", victim, before, nil)
 			}
 			r.Probe("adv-restart-existing")
+			r.Probe("adv-nontrivial")
 		}
 	}
 	// ---- duplicate new requests (same id, same initiator) on both carriers
@@ -343,6 +348,7 @@ func (nr *netRun) adversarialPhase() {
 			before := nr.snapVictim(nr.B)
 			nr.deliver(rawA, nr.B, msg, x.pull, x)
 			r.Probe("adv-duplicate-new-request")
+			r.Probe("adv-nontrivial")
 			accepted := false
 			for _, w := range nr.B.Wire[before.nWire:] {
 				if (w.Dir == "send" || (w.Dir == "sent" && w.Carrier == "graphsync")) && !w.Sum.Req && w.Sum.New && w.Sum.Accepted && w.Sum.TID == x.chid.ID && w.Peer == nr.A.ID {
@@ -371,6 +377,7 @@ func (nr *netRun) adversarialPhase() {
 					continue
 				}
 				r.Probe("adv-terminal-channel")
+				r.Probe("adv-nontrivial")
 				other := rawB
 				if n == nr.B {
 					other = rawA
@@ -429,6 +436,7 @@ func (nr *netRun) adversarialPhase() {
 		errU := nr.A.Mgr.UpdateValidationStatus(context.Background(), x.chid, datatransfer.ValidationResult{Accepted: true})
 		nr.quiesce()
 		r.Probe("adv-local-role")
+		r.Probe("adv-nontrivial")
 		if _, ok := nr.B.State(x.chid); ok && errV == nil {
 			r.Failf("C05", "local-role", "responder-sent-voucher", "SendVoucher by the responder of channel #%d returned nil", x.idx)
 		}
